@@ -231,6 +231,7 @@ func RuleViolations() []Addr {
 		"git::http://example.com/r.git", "git://example.com/r.git", "git::git://example.com/r.git", "git::file:///srv/r.git",
 		"git::ftp://example.com/r.git", "GIT::HTTP://example.com/r.git", "git::http://example.com/r.git//sub?ref=main", "Git::Git://example.com/r.git")
 	add("archive-insecure-scheme",
+		"https::ssh://example.com/foo.tgz", "http::ssh://example.com/foo.tar.gz//sub", "https::ssh://git@example.com/foo?archive=tgz", "HTTPS::SSH://example.com/foo.tgz", "https::git://example.com/foo.tgz", "https::ftp://example.com/foo.tgz",
 		"http://example.com/x.tgz", "HTTP://example.com/x.tgz", "https::http://example.com/x.tgz", "http://example.com/x?archive=tgz",
 		"Http://example.com/x.tar.gz//sub", "http::http://example.com/x.tgz", "https::ssh://example.com/x.tgz", "http::ssh://example.com/x.tgz")
 	add("userinfo",
